@@ -193,7 +193,7 @@ Definition indent_bad (indent : option pv) : bool :=
 
 (* the newline the content is split on: the declared one, else detected on the first line *)
 Definition nl_res_of (line_endings : option pv) (enc : option bytes) (content : bytes) : res bytes :=
-  if pv_truthy line_endings then
+  if pv_given line_endings then
     match line_endings with
     | Some (VStr le) => get_newline_for_type le enc
     | _ => Err EValue
@@ -361,10 +361,13 @@ Qed.
 (* ---- A.4 unknown line_endings value ---- *)
 Definition enc_valid (e : option pv) : Prop := match e with Some (VInt _) => False | _ => True end.
 Definition indent_valid (i : option pv) : Prop := indent_bad i = false.
+(* the option is present ([if line_endings is not None], pydiffx fix D19: until then the test was
+   [if line_endings:], and a falsy value such as the integer 0 was treated as absent) and its value is not a key
+   of NEWLINE_FORMATS: every integer value, every other name *)
 Definition le_unknown (le : option pv) : Prop :=
   match le with
-  | Some (VStr s) => s <> [] /\ assoc_get beq s GenText.newline_formats = None
-  | Some (VInt z) => z <> 0%Z
+  | Some (VStr s) => assoc_get beq s GenText.newline_formats = None
+  | Some (VInt z) => True
   | None => False
   end.
 
@@ -378,10 +381,9 @@ Qed.
 
 Lemma nl_res_unknown : forall le enc content, le_unknown le -> nl_res_of le enc content = Err EValue.
 Proof.
-  intros [[z|s]|] enc content H; cbn [le_unknown] in H; [| |contradiction]; unfold nl_res_of; cbn [pv_truthy].
-  - destruct (Z.eqb z 0) eqn:E; [lia|]. reflexivity.
-  - destruct H as [Hs Hn]. destruct s; [congruence|]. cbn [nonempty].
-    unfold get_newline_for_type. rewrite Hn. reflexivity.
+  intros [[z|s]|] enc content H; cbn [le_unknown] in H; [| |contradiction]; unfold nl_res_of; cbn [pv_given].
+  - reflexivity.
+  - unfold get_newline_for_type. rewrite H. reflexivity.
 Qed.
 
 Lemma read_content_unknown_le : forall st len enc ind le keep,
@@ -1079,7 +1081,7 @@ Proof.
   - apply reach_inv with (orc := orc) (chunk := chunk) (st := st2). eapply run_reach; [exact Hrun|]. apply reach_init.
 Qed.
 
-(* ---- string option values are never empty: [s <> []] in le_unknown follows from the header parse ---- *)
+(* ---- string option values are never empty (a fact of the header parse; le_unknown needed it before D19) ---- *)
 Definition vals_nonempty (o : options) : Prop := forall k s, assoc_get beq k o = Some (VStr s) -> s <> [].
 
 Lemma assoc_set_get : forall (k' k : bytes) (v : pv) (o : options),
@@ -1147,8 +1149,7 @@ Theorem unknown_line_endings_str : forall orc chunk st valid encs prev level nam
   iter_step orc chunk st valid encs prev = SParse (line + 1)%Z None.
 Proof.
   intros orc chunk st valid encs prev level name id opts line st1 k inh len le Hh Hc Hk Ht Hl Hn Hr Hf He Hi Hle Hunk.
-  eapply unknown_line_endings; eauto. rewrite Hle. cbn [le_unknown]. split; [|exact Hunk].
-  eapply (read_header_vals _ _ _ _ _ _ _ _ _ Hh). exact Hle.
+  eapply unknown_line_endings; eauto. rewrite Hle. cbn [le_unknown]. exact Hunk.
 Qed.
 
 (* ================================================================================================= *)
